@@ -404,6 +404,9 @@ class Case:
 SETUP_PREFIXES = ("ROOT", "RESET", "FILE", "DIR", "BADFILE", "BADNAME")
 
 
+INTERNAL_EXTRAS = ("nlists", "nfreeL", "nrecords", "nfreeR", "colls", "heap")
+
+
 def run_cases(cases, root):
     """returns list of (case, model_answers, impl_answers, problems) where problems is a list of
     (kind, text): kind 'model-vs-impl' or 'impl-vs-oracle'"""
@@ -428,7 +431,11 @@ def run_cases(cases, root):
             cmp = c.compare[j]
             d = cmp(ma[j], ia[j])
             if d:
-                problems.append(("model-vs-impl", f"request {j} ({ln.split(' ')[0]}): {d}"))
+                # a difference in the interpreter's *internal* bookkeeping (arena layout, free-list order, collection
+                # counters) breaks the tie between model and code but is not by itself a failure of a property:
+                # the property-level oracle of the case decides that (see run_check: no-failing-input-found)
+                internal = ln.startswith("GC ") or d.split(":")[0] in INTERNAL_EXTRAS
+                problems.append(("model-vs-impl-internal" if internal else "model-vs-impl", f"request {j} ({ln.split(' ')[0]}): {d}"))
             if ln.startswith("RUN ") and " spec=1" in ln:
                 main, sp = split_spec(ma[j])
                 SPEC_STATS["requests"] += 1
